@@ -169,11 +169,23 @@ def case_model_fix(ctx, r, B):
     form = None
     if many:
         fsrc, form = fixed_src(r, R, fixed)
-        call = f'n.fix_variables({fsrc})'
+        if form in ONE_SHOT:
+            # keep the iterator object: the front makes ONE pass, so it is exhausted afterwards (Lean: qm_fix_variables_any_form)
+            R.do(f'it_ = {fsrc}')
+            call = 'n.fix_variables(it_)'
+        else:
+            call = f'n.fix_variables({fsrc})'
         ctx.tick(f'fixed given as {form}')
     else:
         call = f'n.fix_variable({fixed[0][0]!r}, {vrepr(fixed[0][1])})'
     R.do(call)
+    if many and form in ONE_SHOT:
+        left = list(R['it_'])
+        ctx.tick('one-shot `fixed` left exhausted' if not left else 'one-shot `fixed` NOT exhausted')
+        if left:
+            ctx.fail('correspondence', 'QuadraticViewsMixin.fix_variables', 'fixed given as a one-shot iterable',
+                     f'after an accepted call the iterator still yields {left}; the model of the front consumes it in one pass',
+                     detail=dict(script=R.lines[4:]))
     for _, a in fixed:
         if isinstance(a, Val):
             ctx.tick('fix value: NumPy scalar ' + a.src.split('(')[0])
